@@ -167,6 +167,16 @@ func (self *Interpreter) forStatement(node ast.AnalyzedForStatement) *value.Inte
 		iterVal = value.NewValueList(snapshot)
 	}
 
+	// Strings and ranges keep their iteration cursor inside the value: every loop gets a fresh one, otherwise a
+	// loop left by `break` / `return` makes the next loop over the same value resume in the middle, and nested
+	// loops over the same value never end.
+	switch iterable := (*iterVal).(type) {
+	case value.ValueString:
+		iterVal = value.NewValueString(iterable.Inner)
+	case value.ValueRange:
+		iterVal = value.NewValueRange(*iterable.Start, *iterable.End, iterable.EndIsInclusive)
+	}
+
 	iterator := (*iterVal).IntoIter()
 
 	// add a new scope for the loop
